@@ -30,7 +30,11 @@ NoiseModel moved between its ideal and a non-ideal value in place, then re-assig
 (`is_perfect`, `partially_distinguishable`, truthiness tests) shows only in the cells it misjudges.
 
 `generate_samples` is checked by a goodness-of-fit TEST (exact binomial tails, Bonferroni, total
-false-alarm level 1e-9) against the exact model distribution — a statistical test, not a proof.
+false-alarm level 1e-9) against the exact model distribution — a statistical test, not a proof — and, as a FUNCTION OF
+ITS DRAWS (kind "draws"), exactly: `random.choices` / `random.shuffle` are wrapped (module attributes, for the duration
+of the call) to record the draws of a run, which are replayed through the Lean model `Model/C06Samp.lean` and compared
+sample by sample; for small requests all combinations of draws are forced through the real code and the exact
+push-forward of the ideal law is compared with the code's own `generate_distribution` conditioned on the filter.
 """
 from __future__ import annotations
 
@@ -993,14 +997,15 @@ def run_sampler(P, ns, f, k, pre, priors, forced=None, seed=0):
 
 
 def own_law(P, ns, f):
-    """the code's OWN generate_distribution (new Source), conditioned on the filter; canon -> probability"""
+    """the code's OWN generate_distribution (new Source), conditioned on the filter -> (canon -> probability, retained
+    mass before the conditioning)"""
     from perceval.utils import BasicState
     own = svd_entries(mk_source(P).generate_distribution(BasicState(ns)))
     own = [(m, p) for m, p in own if sum(len(t) for t in m) >= f]
     tot = sum(p for _, p in own)
     if tot <= 0:
-        return None
-    return {c: v / tot for c, v in to_canon_dict(own, none_as_zero=True).items()}
+        return None, 0.0
+    return {c: v / tot for c, v in to_canon_dict(own, none_as_zero=True).items()}, tot
 
 
 EXH_LIMIT = 16000
@@ -1152,6 +1157,14 @@ def judge_draws(chk, case):
         return ("broken", "model-vs-code:sampler-route", f"the model rejects the request: {route['err']}", case)
     route = route["route"]
     chk.branch("draws-route-" + route)
+    quiet = None
+    if route == "aborted":          # the code logs a warning for every such request
+        try:
+            from perceval.utils.logging import get_logger, channel, level
+            get_logger().set_level(level.err, channel.user)
+            quiet = (get_logger(), channel, level)
+        except Exception:  # noqa
+            quiet = None
     try:
         t, modes, calls = run_sampler(P, ns, f, k, pre, priors, seed=case.get("seed", 0))
         raised = None
@@ -1159,6 +1172,9 @@ def judge_draws(chk, case):
         raise
     except Exception as e:  # noqa
         raised = type(e).__name__
+    finally:
+        if quiet is not None:
+            quiet[0].set_level(quiet[2].warn, quiet[1].user)
     if route == "IndexError" or raised is not None:
         if raised == route:
             return None
@@ -1193,15 +1209,26 @@ def judge_draws(chk, case):
         try:
             t2, modes2, calls2 = run_sampler(P, ns, f, len(probs), pre, priors, forced=forced)
         except DrawsMismatch as e:
-            return ("broken", "model-vs-code:sampler-draws", f"forcing all draws: {e}", case)
+            return draws_fallback(chk, case, ("model-vs-code:sampler-draws", f"forcing all draws: {e}"))
         law = {}
         for m, w in zip(modes2, probs):
             c = canon(m, none_as_zero=True)
             law[c] = law.get(c, 0.0) + w
-        own = own_law(P, ns, f)
+        own, kept = own_law(P, ns, f)
+        # generate_distribution is trimmed at 1e-16: it is within 1e-16 * lossCount(ns) of the exact product law in total
+        # variation (theorem generate_close_to_exact, lossCount <= 9 * #modes * 5^N); conditioning on a filter that
+        # retains the mass `kept` divides that distance by `kept`
+        slack = 0.0 if own is None else 2e-16 * 9 * len(ns) * 5 ** sum(ns) / kept
+        if own is not None and slack > 1e-4:
+            chk.count("draws_exact_law_ill_conditioned", 1)
+            own = None
         if own is not None:
             law = {c: v for c, v in law.items() if v > 0}
             w = cmp_dicts(law, own)
+            if w is not None and abs(w[1] - w[2]) <= slack:
+                w = next(((c, law.get(c, 0.0), float(own.get(c, 0))) for c in set(law) | set(own)
+                          if not core.close(law.get(c, 0.0), float(own.get(c, 0)))
+                          and abs(law.get(c, 0.0) - float(own.get(c, 0))) > slack), None)
             if w is not None:
                 return ("violation", "sampler-law-exact" + ("-filter" if f else ""),
                         f"all {len(probs)} combinations of draws forced through generate_samples({ns}"
@@ -1211,8 +1238,24 @@ def judge_draws(chk, case):
         bad2 = compare_replay(chk, P, ns, f, t2, modes2, calls2)
         bad = bad or bad2
     if bad is not None:
-        return ("broken", bad[0], bad[1], case)
+        return draws_fallback(chk, case, bad)
     return None
+
+
+def draws_fallback(chk, case, bad):
+    """model and code disagree on the draws (or the code consumes other draws than the model) and the exhaustive
+    oracle did not decide: look for a failing input with the goodness-of-fit TEST on the same request (same earlier
+    requests on the same object)"""
+    n_fb = chk.extra.get("draws_fallback_tests", 0)
+    if n_fb >= 12:      # bounded: the test is slow and a defect that needs it shows in many settings
+        return ("broken", bad[0], bad[1], case)
+    chk.extra["draws_fallback_tests"] = n_fb + 1
+    r = judge_samples(chk, {"kind": "samples", "P": case["P"], "ns": case["ns"], "f": case["f"], "N": 20000,
+                            "seed": case.get("seed", 0), "pre": case.get("pre", 0),
+                            **({"prior": case["prior"]} if case.get("prior") else {})})
+    if r is not None and r[0] == "violation":
+        return ("violation", r[1], r[2] + f" [looked for because: {bad[1][:300]}]", case)
+    return ("broken", bad[0], bad[1], case)
 
 
 def judge_bad(chk, case):
@@ -2042,7 +2085,10 @@ def run(chk: core.Check):
                 "place, not yet re-assigned' state is judged against the CURRENT parameters), "
                 "probability_distribution, _compute_prob_table/cache_prob_table, "
                 "generate_samples (goodness-of-fit TEST at false-alarm level 1e-9, not a proof; two thirds of the "
-                "filtered requests follow a different request on the same Source object), constructor "
+                "filtered requests follow a different request on the same Source object), generate_samples as a "
+                "function of its draws (kind 'draws': recorded draws replayed through the model, ALL combinations of "
+                "draws forced through the real code for small requests and the exact push-forward compared with "
+                "generate_distribution conditioned on the filter), constructor "
                 "rejections; the imperfection lattice (each of brightness/g2/indistinguishability/transmittance ideal or "
                 "not, transmittance also 0, x both multiphoton models = 48 cells) x every kind of observation incl. "
                 "filtered samples requested after a stricter / weaker filter for the same photon number or the same "
@@ -2065,7 +2111,13 @@ def run(chk: core.Check):
         "states are compared up to renaming of the non-zero distinguishability tags (complete invariant: "
         "occupation vectors per tag); for generate_samples an unannotated photon and the signal tag _:0 are identified",
         "settings in which a trimming comparison falls within 1e-6 (relative) of the threshold are skipped and counted",
-        "generate_samples is validated by a statistical goodness-of-fit test only",
+        "generate_samples: random.choices / random.shuffle are wrapped as attributes of the `random` module while the "
+        "call runs (recording: the original functions run on index lists, same consumption of the generator; forcing: "
+        "prescribed draws are returned); the recorded / forced draws are replayed through the Lean model and the samples "
+        "compared exactly (tags up to renaming); 'ideal draws' = index i with probability w_i/sum(w) of the weights the "
+        "code passes, independent, uniform permutations — that CPython's generator realises this law is assumed; "
+        "exhaustive forcing of all draws only for requests with at most 16000 combinations; larger requests are "
+        "additionally validated by the statistical goodness-of-fit test (a test, not a proof)",
         "a NoiseModel updated in place takes effect at the next assignment to processor.noise (NoiseModel has no "
         "observer); reads between the in-place update and the assignment are performed but not judged",
         "histories use only noise values the Source constructor accepts; while a custom input is the current input, "
@@ -2318,7 +2370,7 @@ def run(chk: core.Check):
                     case["prior"] = {"ns": ns + [1], "f": f, "cache": rng.random() < 0.3}
             cases.append(case)
     # 8. the sampler as a function of its draws: recorded run replayed through the model, all draws forced
-    kd = chk.pick(40, 150)
+    kd = chk.pick(24, 150)
     for il, (cell, P) in enumerate(lat):
         ns = [[1, 1], [2], [1, 0, 1], [2, 1]][il % 4]
         cases.append({"kind": "draws", "P": P, "ns": ns, "f": 0, "k": kd, "seed": rng.randrange(1 << 30),
@@ -2335,9 +2387,9 @@ def run(chk: core.Check):
         P = FIXED[name]
         for ns, f, exh in (([2, 2], 0, False), ([1, 1, 1, 1], 2, chk.pick(False, True)), ([3, 1], 3, False),
                            ([0, 2, 0, 1], 1, True), ([1, 2], 0, True), ([3], 5, True), ([1], 3, True)):
-            cases.append({"kind": "draws", "P": P, "ns": ns, "f": f, "k": chk.pick(60, 300),
+            cases.append({"kind": "draws", "P": P, "ns": ns, "f": f, "k": chk.pick(40, 300),
                           "seed": rng.randrange(1 << 30), "pre": rng.choice([0, 1, 3]), "exh": exh})
-    for _ in range(chk.pick(30, 400)):
+    for _ in range(chk.pick(24, 400)):
         P = rand_params(rng)
         m = rng.randint(1, 4)
         ns = [rng.randint(0, 2) for _ in range(m)]
